@@ -115,7 +115,7 @@ pub fn pick(i: u8, len: usize) -> usize {
 // ---------------------------------------------------------------------------------------------
 // contents
 
-pub const POOL_LENS: [usize; 9] = [0, 1, 5, 4096, 8191, 8192, 8193, 20_011, 70_001];
+pub const POOL_LENS: [usize; 10] = [0, 1, 5, 4096, 8191, 8192, 8193, 20_011, 70_001, 300_001];
 
 fn fill(id: u64, len: usize) -> Vec<u8> {
     let mut x = 0x9E37_79B9_7F4A_7C15u64 ^ (id.wrapping_mul(0xD6E8_FEB8_6659_FD93)).wrapping_add(len as u64);
